@@ -129,4 +129,39 @@ class DownLoop(Component):
         s.o2[j] @= s.in_[j - 1]
 
 
-DESIGNS = {"IfcGrid": IfcGrid, "IfcGridLoop": IfcGridLoop, "IfcRow": IfcRow, "FooTop": FooTop, "CompArray": CompArray, "DownLoop": DownLoop}
+class InnerI(Interface):
+  def construct(s):
+    s.msg = InPort(Bits4)
+
+
+class OuterI(Interface):
+  def construct(s):
+    s.inner = [InnerI() for _ in range(3)]
+    s.tag = InPort(Bits2)
+
+
+class NestedIfc(Component):
+  """an array of interfaces each holding an array of interfaces, read inside an update block (loop-variable and constant indices)"""
+  def construct(s):
+    s.x = [OuterI() for _ in range(2)]
+    s.o = [OutPort(Bits4) for _ in range(2)]
+    s.p = OutPort(Bits4)
+
+    @update
+    def up_nifc():
+      for i in range(2):
+        s.o[i] @= s.x[i].inner[2].msg + zext(s.x[i].tag, 4)
+      s.p @= s.x[1].inner[0].msg
+
+
+class NestedIfcConn(Component):
+  """the same interfaces moved by connections only"""
+  def construct(s):
+    s.x = [OuterI() for _ in range(2)]
+    s.o = [OutPort(Bits4) for _ in range(2)]
+    s.o[0] //= s.x[0].inner[2].msg
+    s.o[1] //= s.x[1].inner[1].msg
+
+
+DESIGNS = {"IfcGrid": IfcGrid, "IfcGridLoop": IfcGridLoop, "IfcRow": IfcRow, "FooTop": FooTop, "CompArray": CompArray, "DownLoop": DownLoop,
+           "NestedIfc": NestedIfc, "NestedIfcConn": NestedIfcConn}
